@@ -117,7 +117,7 @@ SHARD_TIMEOUT = dict(quick=300, thorough=1700)
 logging.getLogger("sqlalchemy").addHandler(logging.NullHandler())
 
 OPS = ("exec", "sel", "begin", "nested", "commit", "rollback", "spc", "spr", "reconn")
-OPNAME = dict(exec="exec", sel="select", begin="begin", nested="begin_nested", commit="conn.commit",
+OPNAME = dict(down="[database goes down]", up="[database is back]", exec="exec", sel="select", begin="begin", nested="begin_nested", commit="conn.commit",
               rollback="conn.rollback", spc="sp.commit", spr="sp.rollback", reconn="close;connect")
 SWALLOWED = ("cursor_close",)
 STMT_CALLS = ("cursor", "execute", "fetchall", "fetchone", "fetchmany")
@@ -132,12 +132,12 @@ class M:
     tx: TxModel of the database content; zombie: DBAPI connection dead but nobody has seen it yet
     loose: statement silent from here on; retired: ledger ids that must never be used again"""
 
-    __slots__ = ("status", "root", "sps", "tx", "zombie", "loose", "retired", "nins", "nfaults")
+    __slots__ = ("status", "root", "sps", "tx", "zombie", "loose", "retired", "nins", "nfaults", "down")
 
     def __init__(self, status="ok", root=0, sps=(), tx=None, zombie=False, loose=False, retired=frozenset(), nins=0,
-                 nfaults=0):
-        self.status, self.root, self.sps, self.tx, self.zombie, self.loose, self.retired, self.nins, self.nfaults = (
-            status, root, sps, tx if tx is not None else TxModel(), zombie, loose, retired, nins, nfaults)
+                 nfaults=0, down=False):
+        (self.status, self.root, self.sps, self.tx, self.zombie, self.loose, self.retired, self.nins, self.nfaults,
+         self.down) = (status, root, sps, tx if tx is not None else TxModel(), zombie, loose, retired, nins, nfaults, down)
 
     def replace(self, **kw):
         d = {k: getattr(self, k) for k in self.__slots__}
@@ -158,7 +158,7 @@ class M:
             return tuple(sorted(rank[x] for x in s))
 
         return (self.status, self.root, self.sps, rl(tx.pub), None if tx.snaps is None else tuple(rl(s) for s in tx.snaps),
-                rl(tx.cur), self.zombie, self.loose, self.nfaults)
+                rl(tx.cur), self.zombie, self.loose, self.nfaults, self.down)
 
 
 def base_ops(m):
@@ -345,6 +345,10 @@ class World:
             elif op == "spr":
                 h = self.sps.pop()
                 h.rollback()
+            elif op == "down":
+                led.outage(True)
+            elif op == "up":
+                led.outage(False)
             elif op == "reconn":
                 del self.sps[:]
                 try:
@@ -386,7 +390,14 @@ class World:
         led = self.led
         cur = self.cur_cid()
         conns = tuple(sorted((c.cid == cur, c.cid in m.retired, c.dead) for c in led.conns.values() if c.open))
-        return (tuple(bool(h.is_active) for h in self.sps), conns, self.eng.pool.checkedin(), self.eng.pool.checkedout())
+        # private bookkeeping of the Connection, for the canonical key only (never consulted by the oracle): two
+        # histories that agree on everything public may differ in what a later statement / error handler consults
+        d = self.conn.__dict__
+        hidden = (d.get("_transaction") is not None, d.get("_nested_transaction") is not None,
+                  bool(getattr(d.get("_transaction"), "is_active", False)),
+                  bool(getattr(d.get("_nested_transaction"), "is_active", False)),
+                  "_is_disconnect" in d, "_reentrant_error" in d)
+        return (tuple(bool(h.is_active) for h in self.sps), conns, self.eng.pool.checkedin(), self.eng.pool.checkedout(), hidden)
 
 
 # --------------------------------------------------------------------- lock-step evaluation
@@ -506,6 +517,12 @@ def make_step(rec, env, cfg):
             if pool_too:
                 gone |= {c.cid for c in w.led.conns.values() if c.opened_at <= ev[1].idx and not c.failed_connect}
             return m2.replace(retired=m2.retired | frozenset(gone))
+
+        if op in ("down", "up"):
+            # environment, not an operation of the program: while down every connection is dead and connect() fails
+            if op == "down":
+                return finish(ms.replace(down=True, tx=ms.tx.rollback(), zombie=(ms.status == "ok")))
+            return finish(ms.replace(down=False))
 
         # ---- invariants that hold in every mode
         if outcome == "crash":
@@ -669,7 +686,73 @@ def explore(rec, env, cfg, tier, roots, depth):
 
 def shards(tier, seed):
     first = base_ops(M())
-    return [((li, pp), op) for li in LISTENERS for pp in (False, True) for op in first]
+    out = [((li, pp), op) for li in LISTENERS for pp in (False, True) for op in first]
+    return out + [((li, pp), "outage") for li in LISTENERS for pp in (False, True)]
+
+
+OUTAGE = dict(
+    quick=dict(pre=[(), ("exec", "nested")], fail=("exec", "sel", "spc"), retries=[("exec",), ("begin", "exec")],
+               ok=("exec", "nested"), kinds=("err",)),
+    thorough=dict(pre=[(), ("exec",), ("begin",), ("nested",), ("exec", "nested"), ("nested", "nested")],
+                  fail=("exec", "sel", "nested", "commit", "spc", "spr"),
+                  retries=[("exec",), ("sel",), ("begin",), ("nested",), ("exec", "exec"), ("begin", "sel"), ("nested", "exec")],
+                  ok=("exec", "sel", "begin", "nested"), kinds=("err", "disc")),
+)
+
+
+def outage_family(rec, env, cfg, tier):
+    """the 'database outage' plans (needs 3+ failing driver calls, beyond the global fault bound):
+         <prefix>; [down]; an operation that hits the disconnect; conn.rollback();
+         1..2 operations whose transparent reconnect fails (connect() raises the disconnect-class error); [up];
+         an operation that reconnects and succeeds; then every operation with one plain (thorough: also
+         disconnect-class) error at every driver-call position -- judged by the same clauses (P5 for the plain error)"""
+    step = make_step(rec, env, cfg)
+    F = OUTAGE[tier]
+
+    def advance(h, m, opf):
+        r = step(h, m, opf)
+        if r.model is None:
+            return None
+        rec.state((cfg, r.model.key(), r.extras))
+        return h + (opf,), r.model, r
+
+    for pre in F["pre"]:
+        st = ((), M())
+        for o in pre:
+            st = st and advance(st[0], st[1], (o, None))
+            st = st and st[:2]
+        if not st:
+            continue
+        st1 = advance(st[0], st[1], ("down", None))
+        if not st1:
+            continue
+        for fo in F["fail"]:
+            if fo not in base_ops(st1[1]):
+                continue
+            st2 = advance(st1[0], st1[1], (fo, None))
+            st2 = st2 and advance(st2[0], st2[1], ("rollback", None))
+            if not st2:
+                continue
+            for retry in F["retries"]:
+                st3 = st2
+                for o in retry:
+                    st3 = st3 and advance(st3[0], st3[1], (o, None))
+                # a retry like begin leaves a transaction object that needs rollback() before the next attempt
+                st3 = st3 and advance(st3[0], st3[1], ("rollback", None))
+                st3 = st3 and advance(st3[0], st3[1], ("up", None))
+                if not st3:
+                    continue
+                for ok in F["ok"]:
+                    st4 = advance(st3[0], st3[1], (ok, None))
+                    if not st4:
+                        continue
+                    h, m = st4[0], st4[1]
+                    for op in base_ops(m):
+                        r = step(h, m, (op, None))
+                        for j, c in enumerate(r.calls):
+                            if not c.dead:
+                                for k in F["kinds"]:
+                                    step(h, m, (op, (j, k)))
 
 
 def _hist(h):
@@ -681,6 +764,9 @@ def run_shard(shard, tier, rec):
     cfg, first = tuple(shard[0]), shard[1]
     env = Env()
     try:
+        if first == "outage":
+            outage_family(rec, env, cfg, tier)
+            return
         # the shard owns every history that starts with `first` (all its fault variants included)
         step = make_step(rec, env, cfg)
         m0 = M()
